@@ -1104,12 +1104,25 @@ impl<'a, SE: extensions::ShellExtensions> WordExpander<'a, SE> {
         let mut fields: Vec<WordField> = vec![];
         let concatenation_joiner = self.shell.get_ifs_first_char();
 
+        // A quoted string in which `$@` (or `${a[@]}`) expanded to no fields at all and every other
+        // piece expanded to the empty string yields no word, just like a bare `"$@"` does.
+        let mut saw_fieldless_expansion = false;
+        let mut saw_literal_text = false;
+
         for piece in pieces {
+            saw_literal_text |= matches!(
+                piece.piece,
+                brush_parser::word::WordPiece::Text(_)
+                    | brush_parser::word::WordPiece::EscapeSequence(_)
+            );
+
             let Expansion {
                 fields: this_fields,
                 concatenate,
                 ..
             } = self.expand_word_piece(piece.piece).await?;
+
+            saw_fieldless_expansion |= !concatenate && this_fields.is_empty();
 
             let fields_to_append = if concatenate {
                 #[expect(unstable_name_collisions)]
@@ -1154,6 +1167,14 @@ impl<'a, SE: extensions::ShellExtensions> WordExpander<'a, SE> {
 
                 fields.push(WordField(next_pieces));
             }
+        }
+
+        if saw_fieldless_expansion
+            && !saw_literal_text
+            && fields.len() == 1
+            && fields[0].0.iter().all(|piece| piece.as_str().is_empty())
+        {
+            fields.clear();
         }
 
         Ok(fields)
